@@ -84,7 +84,8 @@ pub fn decode(bytes: &[u8]) -> Case {
             notes.push(Note::Reopen(text.clone()));
             continue;
         }
-        let k = 1 + s.below(3);
+        // 1-3 content changes; one notification in sixteen carries an empty list (allowed by the type)
+        let k = if s.chance(1, 16) { 0 } else { 1 + s.below(3) };
         let mut changes = Vec::new();
         for _ in 0..k {
             let ins = gen_text(&mut s, 6);
@@ -417,7 +418,7 @@ pub fn run(ctx: &Ctx) -> i32 {
     finish(
         ctx,
         parts,
-        "initial texts over an alphabet with ASCII, 2-, 3- and 4-byte characters, LF, CRLF, lone CR, empty lines, and U+2028/U+2029/U+0085/VT/FF (not line ends under LSP); 1-6 notifications, each a didChange with 1-3 content changes or (1 in 8) a didClose followed by a didOpen of the same URI with a new text; ranges from the client model: valid positions, columns past the end of a line, lines past the end of the text, empty ranges, to-end-of-document, range-less full replacements; after every notification the server's text must equal the client model's; round trip of identifier ranges (prepareRename) through the client model; non-trivial = the texts contain a multi-unit character or a CR, or a position overshoots; distinct = distinct (initial, notifications)",
+        "initial texts over an alphabet with ASCII, 2-, 3- and 4-byte characters, LF, CRLF, lone CR, empty lines, and U+2028/U+2029/U+0085/VT/FF (not line ends under LSP); 1-6 notifications, each a didChange with 1-3 (rarely 0) content changes or (1 in 8) a didClose followed by a didOpen of the same URI with a new text; ranges from the client model: valid positions, columns past the end of a line, lines past the end of the text, empty ranges, to-end-of-document, range-less full replacements; after every notification the server's text must equal the client model's; round trip of identifier ranges (prepareRename) through the client model; non-trivial = the texts contain a multi-unit character or a CR, or a position overshoots; distinct = distinct (initial, notifications)",
         &[
             "positions inside a surrogate pair or between CR and LF are never generated (LSP leaves them open)",
             "ranges are ordered (start <= end under the client model), as LSP requires",
